@@ -902,8 +902,11 @@ def find_block(path, name):
 def report_failure(prop, ev, tools, fails):
     """shrink the smallest failing case, save the replay, print the verdict line"""
     items = []
-    for name, (why, path) in fails.items():
-        b = find_block(path, name)
+    cache = {}
+    for name, (why, path) in list(fails.items())[:400]:     # a crash fails every later case of its file: a sample is enough
+        if path not in cache:
+            cache[path] = {block_name(b): b for b in case_blocks(open(path).read())}
+        b = cache[path].get(name)
         if b:
             items.append((len(b), name, why, b))
     items.sort()
